@@ -56,3 +56,29 @@ impl<const W: u16, const H: u16> Model for Tiny666<W, H> {
         tiny_init(di, delay, options, BitsPerPixel::Eighteen)
     }
 }
+
+/// An external model that programs its own colour order: it forces BGR whatever the options say and returns the
+/// address mode it actually sent (as the `Model` contract asks), so the value `Display` keeps for run-time updates
+/// differs from `SetAddressMode::from(options)`.
+pub struct TinyBgr565<const W: u16, const H: u16>;
+
+impl<const W: u16, const H: u16> Model for TinyBgr565<W, H> {
+    type ColorFormat = Rgb565;
+    const FRAMEBUFFER_SIZE: (u16, u16) = (W, H);
+    fn init<DELAY: DelayNs, DI: Interface>(
+        &mut self,
+        di: &mut DI,
+        delay: &mut DELAY,
+        options: &ModelOptions,
+    ) -> Result<SetAddressMode, ModelInitError<DI::Error>> {
+        let madctl = SetAddressMode::from(options).with_color_order(mipidsi::options::ColorOrder::Bgr);
+        delay.delay_us(5_000);
+        di.write_command(ExitSleepMode)?;
+        delay.delay_us(120_000);
+        di.write_command(madctl)?;
+        di.write_command(SetInvertMode::new(options.invert_colors))?;
+        di.write_command(SetPixelFormat::new(PixelFormat::with_all(BitsPerPixel::Sixteen)))?;
+        di.write_command(SetDisplayOn)?;
+        Ok(madctl)
+    }
+}
